@@ -5,6 +5,7 @@ CONSTANTS
   Code <- MCCode
   MaxLen = 7
   DelAsPinned = TRUE
+  StripOnce = FALSE
 INVARIANTS Refines CountAgrees OrderExact NoDupKeys Bounded
 PROPERTY LookupPure
 CHECK_DEADLOCK FALSE
